@@ -307,6 +307,19 @@ def compS (cx : Ctx) (lp : LoopCtx) : Stmt → St → Code × St
     -- ReturnStmt (codegen.go:882-929): the items kept by enclosing statements are dropped first, then the result
     let (ce, nl1) := compE cx st.scopes e .val st.nl
     (dropItems (totalSz lp) ++ ce ++ [.ins .ret], { st with nl := nl1 })
+  | .ret2 e1 e2, st =>
+    -- `for i := range slices.Backward(n.Results)`: the LAST operand is walked first, so that the first result is on
+    -- top of the stack (known finding return-operands-reversed: Go evaluates the operands left to right)
+    let (c2, nl1) := compE cx st.scopes e2 .val st.nl
+    let (c1, nl2) := compE cx st.scopes e1 .val nl1
+    (dropItems (totalSz lp) ++ c2 ++ c1 ++ [.ins .ret], { st with nl := nl2 })
+  | .define2 x y e, st =>
+    -- AssignStmt with len(Lhs) != len(Rhs) (codegen.go:816-852): the call, PUSH2 REVERSEN, then the left sides are
+    -- stored LAST FIRST, each `:=` store allocating its local (y gets the lower slot)
+    let (ce, nl1) := compE cx st.scopes e .val st.nl
+    let st1 := { st with nl := nl1 }.newLocal y
+    let st2 := st1.newLocal x
+    (ce ++ [.ins (.pushInt 2), .ins .reverseN] ++ storeVar cx st1.scopes y ++ storeVar cx st2.scopes x, st2)
   | .brk, st => (match findBrk none lp 0 with | some (d, e) => dropItems d ++ [.ins (.jmp e.endL)] | none => [], st)
   | .cont, st => (match findCont none lp 0 with | some (d, e) => dropItems d ++ [.ins (.jmp e.postL)] | none => [], st)
   | .brkL l, st =>
@@ -360,6 +373,7 @@ def lastIsRet : Stmt → Bool
   | .seq a .skip => match a with
     | .block b => lastIsRet b
     | .ret _ => true
+    | .ret2 _ _ => true
     | _ => false
   | .seq _ b => lastIsRet b
   | _ => false
@@ -379,7 +393,7 @@ def compFunc (cx0 : List (String × Nat × Nat)) (d : FuncDecl) (label nl : Nat)
 
 def tableFrom : List FuncDecl → Nat → List (String × Nat × Nat)
   | [], _ => []
-  | d :: r, i => (d.name, i, if d.hasResult then 1 else 0) :: tableFrom r (i + 1)
+  | d :: r, i => (d.name, i, d.nres) :: tableFrom r (i + 1)
 
 /-- resolveFuncDecls: every function gets its label (its index in source order) before any code is emitted. -/
 def funcTable (p : Prog) : List (String × Nat × Nat) := tableFrom p 0
